@@ -59,10 +59,10 @@ def body(ctx):
     viol = [v for v in viol if v[0] not in ('write-interest', 'interest-panic')]
     if wi:
         ctx.report('write-interest-lost', f"{len(wi)} loop-step obligations violated, e.g. {str(wi[0])[:250]}; confirmed natively: a would-block on the first write leaves queued bytes unsent", {'solver_counterexamples': [str(v)[:300] for v in wi[:4]]},
-                   NATIVE_D, inject_into='src/io_loop/mod.rs', profiles=('dev',), hang_is_violation=True)
+                   NATIVE_D, inject_into='src/io_loop/mod.rs', profiles=('dev',), hang_is_violation=True, panic_is_violation=True)
     if viol:
         ctx.report('outbound-stream', f"{len(viol)} obligations violated, e.g. {str(viol[0])[:250]}; confirmed by the native write-path differential", {'solver_counterexamples': [str(v)[:300] for v in viol[:6]]},
-                   NATIVE, inject_into='src/io_loop/mod.rs', profiles=('dev',), hang_is_violation=True)
+                   NATIVE, inject_into='src/io_loop/mod.rs', profiles=('dev',), hang_is_violation=True, panic_is_violation=True)
     elif ctx.tier == 'thorough' and not wi:
         rp = ctx.replay_native('write-path-differential', NATIVE, inject_into='src/io_loop/mod.rs', profiles=('dev', 'release'))
         ctx.extra['native_write_path_differential'] = {k: v.get('tail', '')[-160:] for k, v in rp['profiles'].items()}
